@@ -1,16 +1,17 @@
 INIT Init
 NEXT Next
 CONSTANTS
-  MaxRules = 0
+  MaxRules = 1
   MaxScen = 1
   MaxEx = 1
-  MaxSteps = 3
-  MaxStmts = 1
-  MaxStepsTot = 3
-  MaxLines = 60
-  LayoutsF = {"none", "two"}
-  Layouts = {"none", "cmt", "multi"}
-  Hows = {"none", "both"}
+  MaxSteps = 2
+  MaxStmts = 8
+  MaxStepsTot = 14
+  MaxLines = 95
+  MaxElems = 3
+  LayoutsF = {"none", "multi"}
+  Layouts = {"none", "cmt"}
+  Hows = {"none"}
   Descs = {0, 1}
   StepKws <- AllKws
   Args <- ArgsMid
@@ -18,3 +19,4 @@ CONSTANTS
   Gaps = {"none", "comment"}
 INVARIANT Faithful
 INVARIANT Neutral
+INVARIANT Emit
